@@ -1773,13 +1773,54 @@ Definition query_walk (qi : nat) : MW (list (nat * nat)) :=
 Definition query_count (qi : nat) : MW nat :=
   w <- query_walk qi ;; ret (fold_left (fun acc p => acc + snd p) w 0).
 
+(** EntityAt: entityAt / entityAtCache (query_count.go) walk LAZILY - they return as soon as the
+    running count exceeds the index, so a table or an archetype that would panic later in the walk
+    is never reached (Count, above, really does the complete walk). Same order, same matching and
+    same panics as [query_walk], raised only if reached before the index is found.
+    [entity_at_tables] scans the tables of one archetype (or of the cache entry): [inl e] = found,
+    [inr count] = the running count after these tables. *)
+Fixpoint entity_at_tables (index : nat) (rels : list rel) (skip_empty : bool) (tabs : list nat) (count : nat)
+  : MW (ent + nat) :=
+  match tabs with
+  | [] => ret (inr count)
+  | tid :: rest =>
+      t <- getT tid ;;
+      if (skip_empty && Nat.eqb (t_len t) 0)%bool then entity_at_tables index rels skip_empty rest count
+      else
+        mt <- of_opt (tbl_matches t rels) ENil ;;
+        if negb mt then entity_at_tables index rels skip_empty rest count
+        else if Nat.ltb index (count + t_len t) then
+          e <- of_opt (nth_error (t_ents t) (index - count)) EIndex ;; ret (inl e)
+        else entity_at_tables index rels skip_empty rest (count + t_len t)
+  end.
+
 Definition query_entity_at (qi : nat) (index : nat) : MW ent :=
-  w <- query_walk qi ;;
-  (fix go (l : list (nat * nat)) (count : nat) : MW ent :=
-     match l with
-     | [] => fail EIndex
-     | (tid, len) :: rest =>
-         if Nat.ltb index (count + len) then
-           t <- getT tid ;; of_opt (nth_error (t_ents t) (index - count)) EIndex
-         else go rest (count + len)
-     end) w 0.
+  q <- getQ qi ;;
+  s <- get ;;
+  match q_cache q with
+  | Some addr =>
+      e <- of_opt (nth_error (w_cheap s) addr) EIndex ;;
+      r <- entity_at_tables index (q_rels q) true (ce_tables e) 0 ;;
+      match r with inl x => ret x | inr _ => fail EIndex end
+  | None =>
+      f <- getF (q_filter q) ;;
+      (fix go (l : list nat) (count : nat) : MW ent :=
+         match l with
+         | [] => fail EIndex
+         | aid :: rest =>
+             a <- getA aid ;;
+             if negb (filter_matches f (a_mask a)) then go rest count
+             else if negb (arch_has_rels a) then
+               match a_tables a with
+               | t0 :: _ =>
+                   t <- getT t0 ;;
+                   if Nat.ltb index (count + t_len t) then of_opt (nth_error (t_ents t) (index - count)) EIndex
+                   else go rest (count + t_len t)
+               | [] => fail EIndex
+               end
+             else
+               cand <- of_opt (arch_get_tables a (q_rels q)) EIndex ;;
+               r <- entity_at_tables index (q_rels q) false cand count ;;
+               match r with inl x => ret x | inr c => go rest c end
+         end) (query_archetypes s q) 0
+  end.
